@@ -128,7 +128,7 @@ def h_first_message(S, B):
         printable = validator != "raise-Unprintable"
         S.known("C08-validator-raising-ConnectionClosedError-gets-no-connectfail",
                 And(validator == "raise-ConnectionClosedError", msgtype == protocol.MSG_CONNECT, ser_known,
-                    payload_kind in ("ok", "no-object-key")))
+                    payload_kind in ("ok", "no-object-key")), checks=["refusal-sends-connectfail"])
         # a reply can be encoded for the peer iff a serializer for it is known and the reason is printable
         validator_runs = And(msgtype == protocol.MSG_CONNECT, ser_known, payload_kind in ("ok", "no-object-key"))
         must_reply = And(Or(msgtype != protocol.MSG_CONNECT, ser_known), Or(printable, Not(validator_runs)))
